@@ -1,5 +1,6 @@
 import ArtapModel.Proofs.Bench
 import ArtapModel.Proofs.SixHump
+import ArtapModel.Proofs.BenchNumeric
 /-!
 # C15 — single-objective benchmarks: optimum where and as documented (theorems over ℝ)
 
@@ -22,20 +23,30 @@ the cross term with a different rational weight on three regions of `x²`, see `
 member of `provedFamilies` (whose `table_at_opt` is an exact equality); `sixHump_table_at_opt` /
 `sixHump_table_bound` restate its two clauses through the table.
 
-Partial (named `…_partial`): for Synthetic1D, Synthetic2D, Synthetic5D, Synthetic10D only the value
-clause is proved (`|f(documented coordinates) − documented optimum| ≤ 10⁻³`).
+Numeric clauses proved late (section of that name below; `Proofs/BenchNumeric.lean`), all to the documented
+precision 10⁻³ and with restatements through the table (`…_table_at_opt` / `…_table_bound`):
+* GramacyLee: `gramacyLee_at_opt` (periodicity + `Real.cos_bound`, π to four decimals) and `gramacyLee_bound`
+  (three regions of `x`: `sin u ≤ u` / Taylor bound of `cos` / `sin ≥ −1`, then polynomial inequalities);
+* Synthetic2D, Synthetic1D (maximised): `synthetic2D_at_opt`, `synthetic2D_bound`, `synthetic1D_at_opt`,
+  `synthetic1D_bound` – the bounds hold at **every** real point, by verified interval arithmetic for `exp`
+  (Taylor partial sums as rational lower bounds of `exp t`) on a bisection tree of 63 rectangles / 68 intervals;
+* Synthetic5D, Synthetic10D (maximised): `synthetic5D_at_opt`, `synthetic5D_bound`, `synthetic10D_at_opt`,
+  `synthetic10D_bound` – for every point with 5 / 10 real coordinates: the ten centres are pairwise so far apart
+  that at most one Gaussian is not negligible;
+* value clause only: `michalewicz_at_opt` (n = 2, the only dimension with documented coordinates) and
+  `schwefel_at_opt` (every n ≤ 1000).
+That makes 20 of 23 families with both clauses proved.  The `…_partial` value clauses of the four synthetic families
+are kept under their old names next to the full-strength ones.
+
 Not proved here (tested by dense search on the implementation — see `harness/c15.py`): the bound clause of
-those four, and both numeric clauses of Schwefel, Michalewicz (2, 5, 10), Schubert, GramacyLee (they need
-verified interval arithmetic for `sin`/`exp` on boxes).
+Schwefel and Michalewicz (2, 5, 10) and both clauses of Schubert (no coordinates are documented, so its value
+clause would be "some point of the box comes within 10⁻³ of −186.7309"); they need verified interval arithmetic for
+`sin`/`cos` of large arguments on boxes in up to 30 dimensions.
 Full statements kept for the record:
   -- theorem schwefel_bound (xs) (h : ∀ c ∈ xs, -500 ≤ c ∧ c ≤ 500) : 0 - 1e-3 ≤ schwefel xs          (n ≤ 30)
-  -- theorem schwefel_at_opt (n ≤ 30) : |schwefel (replicate n 420.9687) - 0| ≤ 1e-3
-  -- theorem michalewicz_bound n ∈ {2,5,10}, xs ∈ [0,π]^n : opt n - 1e-3 ≤ michalewicz xs ;  michalewicz_at_opt (n = 2)
+  -- theorem michalewicz_bound n ∈ {2,5,10}, xs ∈ [0,π]^n : opt n - 1e-3 ≤ michalewicz xs
   -- theorem schubert_bound (x y ∈ [-10,10]) : -186.7309 - 1e-3 ≤ schubert x y
-  -- theorem gramacyLee_bound (x ∈ [0.5,2.5]) : -0.8690111349895 - 1e-3 ≤ gramacyLee x ; gramacyLee_at_opt
-  -- theorem synthetic1D_bound (x ∈ [0,12]) : synthetic1D x ≤ 3.23 + 1e-3 ; synthetic1D_at_opt : |synthetic1D 11 - 3.23| ≤ 1e-3
-  -- theorem synthetic2D_bound (x y ∈ [0,5]) : synthetic2D x y ≤ 1.21112 + 1e-3 ; synthetic2D_at_opt
-  -- theorem synthetic5D_bound (xs ∈ [0,5]^5) : ∀ v, eval .synthetic5D xs = some v → v ≤ 1.2 + 1e-3 ; _at_opt ; same for 10D
+  -- theorem schubert_attained : ∃ x y ∈ [-10,10], |schubert x y - (-186.7309)| ≤ 1e-3
 -/
 namespace Artap.C15
 open Artap Artap.Bench
@@ -151,7 +162,7 @@ theorem sixHump_table_bound (n : ℕ) (xs : List ℝ) (o v : ℝ) (ho : optimum 
 example : eval .sixHump ([0, 0] : List ℝ) = some (sixHump 0 0) ∧
     optimum .sixHump 2 = some (Num.neg (rat (10316 / 10000)) : ℝ) := ⟨rfl, rfl⟩
 
-/-! ## Synthetic 1D / 2D / 5D / 10D (maximised): value clause only (bound: tested, see header) -/
+/-! ## Synthetic 1D / 2D / 5D / 10D (maximised): value clause under the old `…_partial` names (bound clauses: late section) -/
 /-- `|f(11) − 3.23| ≤ 10⁻³` (`exp(−9/2)`, `exp(−50/9)` from Taylor bounds, twelve tails below `2⁻¹⁸`) -/
 theorem synthetic1D_at_opt_partial : |synthetic1D (11 : ℝ) - 323 / 100| ≤ 1 / 1000 := synthetic1D_documented
 /-- `|f(3, 4) − 1.21112| ≤ 10⁻³` -/
@@ -166,6 +177,177 @@ theorem synthetic10D_at_opt_partial :
   synthetic10D_documented
 example : optCoords .synthetic5D 5 = some ([nat 3, nat 4, rat (13/10), nat 5, nat 5] : List ℝ) ∧
     optimum .synthetic5D 5 = some (rat (12/10) : ℝ) ∧ minimised .synthetic5D = false := ⟨rfl, rfl, rfl⟩
+
+/-! ## Numeric clauses proved late (`Proofs/BenchNumeric.lean`: periodicity reduction, Taylor enclosures of
+`sin`/`cos`/`exp` with explicit rational bounds for π) -/
+
+/-! ### GramacyLee: both clauses to the documented precision 10⁻³ -/
+/-- value clause: `|f(0.548563444114526) − (−0.8690111349895)| ≤ 10⁻³` (the proof gives 2·10⁻⁵) -/
+theorem gramacyLee_at_opt :
+    |gramacyLee (548563444114526 / 1000000000000000 : ℝ) - (-(869011134989500 / 1000000000000000))| ≤ 1 / 1000 :=
+  gramacyLee_documented
+/-- bound clause: no point of the box `[0.5, 2.5]` has a value below the documented optimum by more than 10⁻³
+(only `1/2 ≤ x` is used) -/
+theorem gramacyLee_bound (x : ℝ) (h : 1 / 2 ≤ x ∧ x ≤ 5 / 2) :
+    -(869011134989500 / 1000000000000000 : ℝ) - 1 / 1000 ≤ gramacyLee x := gramacyLee_ge x h.1
+
+/-- the same two clauses through the model's table (`optCoords`, `optimum`, `box`, `eval`) -/
+theorem gramacyLee_table_at_opt (n : ℕ) (cs : List ℝ) (o : ℝ) (hc : optCoords .gramacyLee n = some cs)
+    (ho : optimum .gramacyLee n = some o) : ∃ v : ℝ, eval .gramacyLee cs = some v ∧ |v - o| ≤ 1 / 1000 := by
+  simp only [optCoords, optimum, Option.some.injEq] at hc ho
+  subst hc; subst ho
+  refine ⟨_, rfl, ?_⟩
+  have := gramacyLee_documented
+  simpa using this
+
+theorem gramacyLee_table_bound (n : ℕ) (xs : List ℝ) (o v : ℝ) (ho : optimum .gramacyLee n = some o)
+    (hbox : List.Forall₂ (fun x (b : ℝ × ℝ) => b.1 ≤ x ∧ x ≤ b.2) xs (box .gramacyLee n))
+    (hv : eval .gramacyLee xs = some v) : o - 1 / 1000 ≤ v := by
+  simp only [optimum, Option.some.injEq] at ho; subst ho
+  match xs, hbox, hv with
+  | x :: _, hbox, hv =>
+    simp only [eval, Option.some.injEq] at hv; subst hv
+    simp only [box, List.forall₂_cons] at hbox
+    have h1 : (1 / 2 : ℝ) ≤ x := by
+      have := hbox.1.1
+      simpa using this
+    have := gramacyLee_ge x h1
+    simp only [real_neg, rat_real]; push_cast; linarith
+example : List.Forall₂ (fun x (b : ℝ × ℝ) => b.1 ≤ x ∧ x ≤ b.2) ([1] : List ℝ) (box .gramacyLee 1) := by
+  simp [box]; norm_num
+
+/-! ### Synthetic2D, Synthetic1D (maximised): both clauses to the documented precision 10⁻³ -/
+/-- value clause (the statement of `synthetic2D_at_opt_partial`, no longer partial: the bound clause follows) -/
+theorem synthetic2D_at_opt : |synthetic2D (3 : ℝ) 4 - 121112 / 100000| ≤ 1 / 1000 := synthetic2D_documented
+/-- bound clause: no real point at all (in particular no point of the box `[0,5]²`) has a value above the
+documented maximum 1.21112 by more than 10⁻³ (verified interval arithmetic on 63 rectangles) -/
+theorem synthetic2D_bound (x y : ℝ) : synthetic2D x y ≤ 121112 / 100000 + 1 / 1000 := synthetic2D_le x y
+/-- value clause (the statement of `synthetic1D_at_opt_partial`) -/
+theorem synthetic1D_at_opt : |synthetic1D (11 : ℝ) - 323 / 100| ≤ 1 / 1000 := synthetic1D_documented
+/-- bound clause: no real point at all (in particular no point of the box `[0,12]`) has a value above the
+documented maximum 3.23 by more than 10⁻³ (verified interval arithmetic on 68 intervals) -/
+theorem synthetic1D_bound (x : ℝ) : synthetic1D x ≤ 323 / 100 + 1 / 1000 := synthetic1D_le x
+/-- the bounds are tight to within 2·10⁻³: the documented points come that close -/
+example : 121112 / 100000 - 1 / 1000 ≤ synthetic2D (3 : ℝ) 4 ∧ 323 / 100 - 1 / 1000 ≤ synthetic1D (11 : ℝ) := by
+  have h2 := abs_le.1 synthetic2D_documented
+  have h1 := abs_le.1 synthetic1D_documented
+  constructor <;> linarith [h2.1, h1.1]
+/-- the same clauses through the model's table (`optCoords`, `optimum`, `eval`; both families are maximised) -/
+theorem synthetic2D_table_at_opt (n : ℕ) (cs : List ℝ) (o : ℝ) (hc : optCoords .synthetic2D n = some cs)
+    (ho : optimum .synthetic2D n = some o) : ∃ v : ℝ, eval .synthetic2D cs = some v ∧ |v - o| ≤ 1 / 1000 := by
+  simp only [optCoords, optimum, Option.some.injEq] at hc ho
+  subst hc; subst ho
+  refine ⟨_, rfl, ?_⟩
+  have := synthetic2D_documented
+  simpa using this
+theorem synthetic2D_table_bound (n : ℕ) (xs : List ℝ) (o v : ℝ) (ho : optimum .synthetic2D n = some o)
+    (hv : eval .synthetic2D xs = some v) : v ≤ o + 1 / 1000 ∧ minimised .synthetic2D = false := by
+  simp only [optimum, Option.some.injEq] at ho; subst ho
+  match xs, hv with
+  | x :: y :: _, hv =>
+    simp only [eval, Option.some.injEq] at hv; subst hv
+    have := synthetic2D_le x y
+    refine ⟨?_, rfl⟩
+    simp only [rat_real]; push_cast; linarith
+theorem synthetic1D_table_at_opt (n : ℕ) (cs : List ℝ) (o : ℝ) (hc : optCoords .synthetic1D n = some cs)
+    (ho : optimum .synthetic1D n = some o) : ∃ v : ℝ, eval .synthetic1D cs = some v ∧ |v - o| ≤ 1 / 1000 := by
+  simp only [optCoords, optimum, Option.some.injEq] at hc ho
+  subst hc; subst ho
+  refine ⟨_, rfl, ?_⟩
+  have := synthetic1D_documented
+  simpa using this
+theorem synthetic1D_table_bound (n : ℕ) (xs : List ℝ) (o v : ℝ) (ho : optimum .synthetic1D n = some o)
+    (hv : eval .synthetic1D xs = some v) : v ≤ o + 1 / 1000 ∧ minimised .synthetic1D = false := by
+  simp only [optimum, Option.some.injEq] at ho; subst ho
+  match xs, hv with
+  | x :: _, hv =>
+    simp only [eval, Option.some.injEq] at hv; subst hv
+    have := synthetic1D_le x
+    refine ⟨?_, rfl⟩
+    simp only [rat_real]; push_cast; linarith
+example : eval .synthetic2D ([0, 0] : List ℝ) = some (synthetic2D 0 0) ∧
+    optimum .synthetic2D 2 = some (rat (121112 / 100000) : ℝ) ∧
+    eval .synthetic1D ([5] : List ℝ) = some (synthetic1D 5) ∧ optimum .synthetic1D 1 = some (rat (323 / 100) : ℝ) :=
+  ⟨rfl, rfl, rfl, rfl⟩
+
+/-! ### Synthetic5D, Synthetic10D (maximised): both clauses to the documented precision 10⁻³ -/
+/-- value clause (the statement of `synthetic5D_at_opt_partial`) -/
+theorem synthetic5D_at_opt :
+    ∃ v : ℝ, eval .synthetic5D [nat 3, nat 4, rat (13/10), nat 5, nat 5] = some v ∧ |v - 12 / 10| ≤ 1 / 1000 :=
+  synthetic5D_documented
+/-- bound clause: no point with five real coordinates (in particular no point of the box `[0,5]⁵`) has a value
+above the documented maximum 1.2 by more than 10⁻³.  The length hypothesis is needed: the code (and the model) zip
+the point with the centres, so a shorter vector sees fewer squared distances (`eval .synthetic5D [] = some 6.45`). -/
+theorem synthetic5D_bound (xs : List ℝ) (hlen : xs.length = 5) (v : ℝ) (hv : eval .synthetic5D xs = some v) :
+    v ≤ 12 / 10 + 1 / 1000 := by
+  match xs, hlen, hv with
+  | [x1, x2, x3, x4, x5], _, hv => exact syn5_le x1 x2 x3 x4 x5 v hv
+theorem synthetic10D_at_opt :
+    ∃ v : ℝ, eval .synthetic10D [nat 3, nat 4, rat (13/10), nat 5, nat 5, nat 3, nat 4, rat (13/10), nat 5, nat 5]
+      = some v ∧ |v - 12 / 10| ≤ 1 / 1000 :=
+  synthetic10D_documented
+theorem synthetic10D_bound (xs : List ℝ) (hlen : xs.length = 10) (v : ℝ) (hv : eval .synthetic10D xs = some v) :
+    v ≤ 12 / 10 + 1 / 1000 := by
+  match xs, hlen, hv with
+  | [x1, x2, x3, x4, x5, x6, x7, x8, x9, x10], _, hv => exact syn10_le x1 x2 x3 x4 x5 x6 x7 x8 x9 x10 v hv
+/-- through the table: every point of the declared box has the right number of coordinates -/
+theorem synthetic5D_table_bound (n : ℕ) (xs : List ℝ) (o v : ℝ) (ho : optimum .synthetic5D n = some o)
+    (hbox : List.Forall₂ (fun x (b : ℝ × ℝ) => b.1 ≤ x ∧ x ≤ b.2) xs (box .synthetic5D n))
+    (hv : eval .synthetic5D xs = some v) : v ≤ o + 1 / 1000 := by
+  simp only [optimum, Option.some.injEq] at ho; subst ho
+  have hlen : xs.length = 5 := by
+    have := hbox.length_eq
+    simpa [box] using this
+  have := synthetic5D_bound xs hlen v hv
+  simp only [rat_real]; push_cast; linarith
+theorem synthetic10D_table_bound (n : ℕ) (xs : List ℝ) (o v : ℝ) (ho : optimum .synthetic10D n = some o)
+    (hbox : List.Forall₂ (fun x (b : ℝ × ℝ) => b.1 ≤ x ∧ x ≤ b.2) xs (box .synthetic10D n))
+    (hv : eval .synthetic10D xs = some v) : v ≤ o + 1 / 1000 := by
+  simp only [optimum, Option.some.injEq] at ho; subst ho
+  have hlen : xs.length = 10 := by
+    have := hbox.length_eq
+    simpa [box] using this
+  have := synthetic10D_bound xs hlen v hv
+  simp only [rat_real]; push_cast; linarith
+example : ([1, 2, 3, 4, 5] : List ℝ).length = 5 ∧
+    List.Forall₂ (fun x (b : ℝ × ℝ) => b.1 ≤ x ∧ x ≤ b.2) ([1, 2, 3, 4, 5] : List ℝ) (box .synthetic5D 5) := by
+  refine ⟨rfl, ?_⟩
+  simp [box, List.replicate]
+  norm_num
+
+/-! ### Michalewicz (n = 2), Schwefel: the value clause (the bound clause remains tested) -/
+/-- value clause for the only dimension with documented coordinates: `|f(2.20, 1.57) − (−1.8013)| ≤ 10⁻³`
+(the proof encloses `f` in `[−1.80125, −1.80111]`) -/
+theorem michalewicz_at_opt :
+    |michalewicz [(220 / 100 : ℝ), 157 / 100] - (-(18013 / 10000))| ≤ 1 / 1000 := michalewicz_documented
+theorem michalewicz_table_at_opt (n : ℕ) (cs : List ℝ) (o : ℝ) (hc : optCoords .michalewicz n = some cs)
+    (ho : optimum .michalewicz n = some o) : ∃ v : ℝ, eval .michalewicz cs = some v ∧ |v - o| ≤ 1 / 1000 := by
+  by_cases h2 : n = 2
+  · subst h2
+    simp only [optCoords, optimum, if_true, Option.some.injEq] at hc ho
+    subst hc; subst ho
+    refine ⟨_, rfl, ?_⟩
+    have := michalewicz_documented
+    simpa using this
+  · simp [optCoords, h2] at hc
+/-- value clause for every dimension up to 1000: each coordinate 420.9687 contributes between −6.9·10⁻⁷ and
+1.7·10⁻⁷ (`418.982887 − 420.9687·sin √420.9687`) -/
+theorem schwefel_at_opt (n : ℕ) (hn : n ≤ 1000) :
+    |schwefel (List.replicate n (4209687 / 10000 : ℝ)) - 0| ≤ 1 / 1000 := by
+  have h := schwefel_documented n
+  have hn' : (n : ℝ) ≤ 1000 := by exact_mod_cast hn
+  rw [sub_zero]
+  calc _ ≤ (n : ℝ) / 1000000 := h
+    _ ≤ 1 / 1000 := by linarith
+theorem schwefel_table_at_opt (n : ℕ) (hn : n ≤ 1000) (cs : List ℝ) (o : ℝ) (hc : optCoords .schwefel n = some cs)
+    (ho : optimum .schwefel n = some o) : ∃ v : ℝ, eval .schwefel cs = some v ∧ |v - o| ≤ 1 / 1000 := by
+  simp only [optCoords, optimum, Option.some.injEq] at hc ho
+  subst hc; subst ho
+  refine ⟨_, rfl, ?_⟩
+  have := schwefel_at_opt n hn
+  simpa using this
+example : optCoords .michalewicz 2 = some ([rat (220/100), rat (157/100)] : List ℝ) ∧
+    optCoords .schwefel 3 = some (List.replicate 3 (rat (4209687/10000)) : List ℝ) := ⟨rfl, rfl⟩
 
 /-! ## The same two clauses through the model's table -/
 
